@@ -46,6 +46,29 @@ CHECKS = {
         design="4 C08", technique="TLA+ model + TLC invariants; two-way conformance by TLC trace validation"),
 }
 
+CHECKS["C02"] = dict(
+    text="The expected value of every query entry point is a TLA+ operator (spec/Queries.tla) of the static graph "
+         "{(u,v): has_interaction(u,v,t)} (union graph for t omitted). TLC proves that implementation-shaped models of "
+         "the observers (seen-de-duplication, degree counts, size = sum(degree)/2, positive-degree node count, density "
+         "through size) satisfy those clauses in every reachable state of the bounded model; on the code side every "
+         "reachable abstract state (self-loops, reciprocal pairs, both modes, isolated attributed nodes) is rebuilt and "
+         "the full battery (each entry point x each grid instant and t omitted x nbunch variants incl. unknown nodes) "
+         "is recorded and judged by TLC with the same operators.",
+    design="4 C02", technique="TLA+ expected-value operators; TLC invariants on model observers; TLC validation of recorded query batteries")
+CHECKS["C06"] = dict(
+    text="spec/Derived.tla defines the presence, node set and attributes of time_slice(G,f,t) as a function of G's "
+         "observed presence; TLC judges derive-lines recorded for every reachable state of the bounded model x windows "
+         "(all windows over the grid in the thorough tier), t_to omitted, t_to<t_from (ValueError), the functional "
+         "wrapper and slices of slices (intersection of windows): class, presence, nodes+attributes, source unchanged, "
+         "and C02-C05 on the slice relative to its own presence.",
+    design="4 C06", technique="TLA+ derived-graph operators; TLC validation of recorded derive lines on TLC-generated states")
+CHECKS["C16"] = dict(
+    text="spec/Derived.tla defines the presence of to_directed / to_undirected(reciprocal) results; TLC judges derive-lines "
+         "recorded for every reachable state of the bounded model (reciprocal pairs with different timelines, self-loops, "
+         "isolated attributed nodes, nested mutable attribute values): class, presence, all nodes kept, source raw-identical "
+         "after the call and after the harness mutated the copy, C02-C05 on the result.",
+    design="4 C16", technique="TLA+ derived-graph operators; TLC validation of recorded derive lines on TLC-generated states")
+
 NOT_YET = {}
 
 TITLES = {}
